@@ -77,7 +77,7 @@ def pair_rows(blk, pa, pb, rows):
 
 def operand_pairs(rng, tier):
     pairs = []
-    exps = [1, 2, 64, 100, 126, 127, 128, 129, 150, 200, 253, 254]
+    exps = [2, 100, 127, 128, 150, 254]
     gaps = (list(range(0, 81)) + [100, 127, 128, 129, 200, 232, 233, 240, 252, 253]) if tier == 'thorough' else \
         [0, 1, 2, 3, 8, 22, 23, 24, 25, 26, 31, 32, 33, 40, 64, 128, 129, 233, 253]
     ms = MANTS if tier == 'thorough' else MANTS[:6]
